@@ -44,7 +44,11 @@ claim('C05',
       '(c) on the extracted v2 transition relation: a proposal becomes VALIDATED only with the plugin\'s acceptance in that step on top of the '
       'predecessor\'s commit and leaves the configuration untouched; a proposal\'s commit opens only in its transaction\'s commit phase; BMC: '
       'a rejected change never becomes readable; the plugin refuses with any kind of error ModelPluginInfo.Validate can return (typed Invalid, '
-      'other typed error, raw gRPC status: symbolic per step). (b) document = readable leaves is covered by the C18 tree checks.',
+      'other typed error, raw gRPC status: symbolic per step). (b) data path: histories of 2 (thorough 3) Sets over the C03 universe (the last one '
+      'possibly {delete /a, update /a/b/c}) and the rollback of the last change go through the REAL proposal Initialize / Validate / Commit / Apply '
+      'over the real configuration store, also with every change validated and committed before any is applied: the document handed to the '
+      'plugin (value given to the JSON encoder by the real BuildTree) holds exactly the leaves and values that the reference gNMI state machine '
+      'holds after the change / after the rollback (= what C03 shows Get returns).',
       PROTO_NOTE, 'SSA symbolic execution + SMT (z3): arithmetic harness, step contracts, BMC', 'DESIGN.md 6/C05')
 claim('C06',
       '(a) data path: histories of 1..2 (thorough 3) Sets over the C03 universe (the last one possibly a request that deletes /a and writes '
